@@ -310,6 +310,8 @@ def taylor_hooks():
         return f
 
     def subs(sx, a, kw):
+        if kw or len(a) != 3:
+            return NotImplemented           # not the Taylor calculus: left to the evaluator (uninterpreted)
         recv, var, val = a[0], a[1], a[2]
         s = split(recv)
         if s is None or val != 0:
